@@ -14,6 +14,7 @@
 //!   (equal (consts ..) (heap ..) (tuples ..) <count> V..): runs real bytecode that pushes the values
 //!     and executes `Equal(count)`; values limited to ints, constant binaries, tuples
 //!     -> (ok <erased value>) | (err Class) | (panic "file:line")
+//!   (equal-not ...): the same followed by `Not` (what the compiler emits after every Equal)
 //!
 //! `--run <workers>`: each stdin line `"<quiver source>" (mod "a/b" "<source>")*` is compiled as a
 //!   top-level program and run on a real `Environment` with <workers> real `Worker`s over in-memory
@@ -246,7 +247,7 @@ fn push_instructions(v: &Sexp, consts: &mut Vec<Constant>, out: &mut Vec<Instruc
     Ok(())
 }
 
-fn run_equal(items: &[Sexp]) -> String {
+fn run_equal(items: &[Sexp], then_not: bool) -> String {
     let mut consts: Vec<Constant> = section(items, "consts").iter().map(const_of).collect();
     let tuples: Vec<TupleTypeInfo> = section(items, "tuples").iter().map(tup_of).collect();
     let rest: Vec<&Sexp> = items
@@ -261,6 +262,9 @@ fn run_equal(items: &[Sexp]) -> String {
         }
     }
     ins.push(Instruction::Equal(count));
+    if then_not {
+        ins.push(Instruction::Not);
+    }
     let types = vec![Type::nil(), Type::Callable { parameter: 0, result: 0, receive: 0 }];
     let bytecode = Bytecode {
         constants: consts,
@@ -433,7 +437,8 @@ fn main() {
         let out = guarded(|| match l[0].atom() {
             "eq" => run_eq(&l[1..]),
             "refs" => run_refs(&l[1..]),
-            "equal" => run_equal(&l[1..]),
+            "equal" => run_equal(&l[1..], false),
+            "equal-not" => run_equal(&l[1..], true),
             _ => "(bad-case)".to_string(),
         });
         match out {
